@@ -42,6 +42,7 @@ type (
 		Var    string
 		Typ    string
 		Body   Expr
+		Trig   []Expr // optional instantiation patterns: `forall k int :: {f(k), g(k)} body`
 	}
 	EStar struct{ X Expr } // *p
 )
@@ -92,7 +93,7 @@ func lexExpr(src string) ([]lexTok, error) {
 	var toks []lexTok
 	i := 0
 	ops := []string{"<==>", "==>", "&^", "<<", ">>", "&&", "||", "==", "!=", "<=", ">=", "::", ":=",
-		"+", "-", "*", "/", "%", "&", "|", "^", "<", ">", "!", "(", ")", "[", "]", ",", ".", ":", "?"}
+		"+", "-", "*", "/", "%", "&", "|", "^", "<", ">", "!", "(", ")", "[", "]", ",", ".", ":", "?", "{", "}"}
 	for i < len(src) {
 		c := src[i]
 		if c == ' ' || c == '\t' || c == '\n' {
@@ -283,8 +284,22 @@ func (p *exprParser) unary() Expr {
 		}
 		ty.s = tyS
 		p.expect("::")
+		var trig []Expr
+		if nx := p.peek(); nx.k == "op" && nx.s == "{" {
+			p.next()
+			for {
+				trig = append(trig, p.expr(0))
+				sep := p.next()
+				if sep.k == "op" && sep.s == "}" {
+					break
+				}
+				if !(sep.k == "op" && sep.s == ",") {
+					panic("quantifier patterns: expected `,` or `}`")
+				}
+			}
+		}
 		body := p.expr(0)
-		return &EQuant{t.s == "forall", v.s, ty.s, body}
+		return &EQuant{t.s == "forall", v.s, ty.s, body, trig}
 	}
 	return p.postfix(p.primary())
 }
@@ -409,7 +424,11 @@ func substExpr(e Expr, m map[string]Expr) Expr {
 				m2[k] = v
 			}
 		}
-		return &EQuant{x.Forall, x.Var, x.Typ, substExpr(x.Body, m2)}
+		var tr []Expr
+		for _, t := range x.Trig {
+			tr = append(tr, substExpr(t, m2))
+		}
+		return &EQuant{x.Forall, x.Var, x.Typ, substExpr(x.Body, m2), tr}
 	}
 	return e
 }
